@@ -218,6 +218,15 @@ def lanes(ctx):
     _expect(ctx, "R23.lane-counter", c3, ["lane_counter_bad"], ["lane_counter_good"])
 
 
+def masked_tail(ctx):
+    from .rules import lanes as ln
+    P = program()
+    c = _sub()
+    n = ln.check_masked_tail(c, [P.fn("masked_tail_bad", "src/controls_simd.c"), P.fn("masked_tail_good", "src/controls_simd.c")])
+    ctx.control("R23.masked-tail finds the control compares", n == 2, str(n))
+    _expect(ctx, "R23.masked-tail", c, ["masked_tail_bad"], ["masked_tail_good"])
+
+
 def atomic(ctx):
     from .rules import allocfail
     P = program()
@@ -360,7 +369,16 @@ def scaledext(ctx):
     _expect(ctx, "R39.scaled-extent", c, ["scaledext_bad"], ["scaledext_good"])
 
 
-ALL = {"scaledext": scaledext, "varint": varint, "threadcount": threadcount, "sizekind": sizekind, "lenext": lenext, "xxh": xxh, "signedoff": signedoff, "reqalloc": reqalloc, "fieldfit": fieldfit, "stalefield": stalefield, "hidden": hidden, "region_args": region_args, "widen": widen, "progress": progress, "lazyinit": lazyinit, "lanes": lanes, "atomic": atomic, "feasible": feasible, "endian": endian, "units": units, "alloc": alloc, "status": status, "ownership": ownership, "cursor": cursor, "arrays": arrays,
+def loopcursor(ctx):
+    from .rules import loopcursor as lc
+    P = program()
+    c = _sub()
+    n = lc.check(c, [P.fn("loopcursor_bad"), P.fn("loopcursor_good")])
+    ctx.control("R40.loop-cursor finds the control reads", n == 2, str(n))
+    _expect(ctx, "R40.loop-cursor", c, ["loopcursor_bad"], ["loopcursor_good"])
+
+
+ALL = {"masked_tail": masked_tail, "loopcursor": loopcursor, "scaledext": scaledext, "varint": varint, "threadcount": threadcount, "sizekind": sizekind, "lenext": lenext, "xxh": xxh, "signedoff": signedoff, "reqalloc": reqalloc, "fieldfit": fieldfit, "stalefield": stalefield, "hidden": hidden, "region_args": region_args, "widen": widen, "progress": progress, "lazyinit": lazyinit, "lanes": lanes, "atomic": atomic, "feasible": feasible, "endian": endian, "units": units, "alloc": alloc, "status": status, "ownership": ownership, "cursor": cursor, "arrays": arrays,
        "recursion": recursion, "narrowing": narrowing, "skeleton": skeleton, "must_pass": must_pass}
 
 
